@@ -43,7 +43,17 @@ CATALOG = [
     ("{o}(i) = C(i,j) * x(j) + x(i)", "d", {"C": "C", "x": "x"}),
     ("{o}(i,j) = C(i,j) + C(i,k) * C(k,j)", "dd", {"C": "C"}),
     ("{o}() = x(i) * C(i,j) * x(j)", "", {"C": "C", "x": "x"}),
+    # arithmetic operators of Tensor (they evaluate an assignment of their own); the scalar operand
+    # differs between the argument variants
+    ("op:mul_scalar", None, {"a": "A"}),
+    ("op:radd_scalar", None, {"a": "x"}),
+    ("op:sub_scalar", None, {"a": "y"}),
+    ("op:add", None, {"a": "A", "b": "B"}),
+    ("op:matmul", None, {"a": "A", "b": "C"}),
+    # nested far deeper than the parser's recursion budget allows: refused alone, so refused in company
+    ("{o}(i) = " + "(" * 120 + "x(i)" + " + x(i))" * 120, "d", {"x": "x"}),
 ]
+SCALARS = [2.0, 3.0, -1.5]
 REPEATED = (12, 13, 14)
 SINGLE_OPERAND = (5, 8, 10)
 SHARED = {"A": ((3, 3), "ds"), "B": ((3, 3), "ds"), "C": ((3, 3), "d1s0"), "D": ((3, 3), "dd"),
@@ -240,11 +250,22 @@ def init_trace_state():
     _state["windows"] = win
 
 
-def _do_call(prob, tensors):
+def _do_call(prob, tensors, v=0):
     from tensora import tensor_method
     from tensora.compile import BackendCompiler, evaluate_cffi, evaluate_tensora
 
     a, of, params = CATALOG[prob["catalog"]]
+    if a.startswith("op:"):
+        x = tensors[params["a"]]
+        k = SCALARS[v % len(SCALARS)]
+        if a == "op:mul_scalar":
+            return x * k
+        if a == "op:radd_scalar":
+            return k + x
+        if a == "op:sub_scalar":
+            return x - k
+        y = tensors[params["b"]]
+        return x + y if a == "op:add" else x @ y
     assignment = a.format(o=prob["name"])
     kw = {p: tensors[k] for p, k in params.items()}
     if prob["entry"] == "tensor_method":
@@ -494,7 +515,7 @@ def _run_once(plan, cfg=None):
         fp0 = _module_state() if want_shared else None
         for pi, v in calls:
             try:
-                ref[(pi, v)] = ("ok", _raw(_do_call(problems[pi], tensors[v])))
+                ref[(pi, v)] = ("ok", _raw(_do_call(problems[pi], tensors[v], v)))
             except Exception as e:
                 ref[(pi, v)] = ("exc", type(e).__name__)
                 del e
@@ -561,7 +582,7 @@ def _run_once(plan, cfg=None):
                 for k, (pi, v) in enumerate(plan["threads"][i]):
                     th.sim_call = f"t{i}c{k}"
                     try:
-                        r = _do_call(problems[pi], tensors[v])
+                        r = _do_call(problems[pi], tensors[v], v)
                     except Abandoned:
                         raise
                     except Exception as e:
